@@ -393,6 +393,48 @@ def link_root_histories(c, rnd, n):
         c.violations.append(("oracle", "C02 with a symbolic link as tree argument: " + b, b, True))
 
 
+def split_sweep(c, rnd, n):
+    """create --split S / extract for many part sizes S on one small encrypted tree (normal and solid entries): part
+    boundaries fall at every offset of the small chunks in front of the data (FHED, PHSF, the 16-byte IV piece), which the
+    two fixed sizes of the option vectors never reach (seeded C02-7: a reader that takes the IV with a single read).
+    Implementation-side oracle: both commands succeed and the tree comes back."""
+    bad = []
+    with cli.Sandbox("C02s") as sb:
+        d = sb.path("s")
+        os.makedirs(os.path.join(d, "tmp"))
+        os.makedirs(os.path.join(d, "t", "sub"))
+        for name, size in (("a", 40), ("sub/b", 333), ("c.txt", 0), ("sub/d", 17)):
+            with open(os.path.join(d, "t", name), "wb") as f:
+                f.write(rnd.randbytes(size))
+        src = snap(os.path.join(d, "t"), "t")
+        sizes = rnd.sample(range(150, 420), min(n, 270))
+        for i, m in enumerate(sizes):
+            ciph = rnd.choice([["--aes", "ctr"], ["--aes", "cbc"], ["--camellia", "ctr"], ["--camellia", "cbc"]])
+            opts = ["--store"] + ciph + ["--pbkdf2", "r=1", "--password", PW] + (["--solid"] if i % 2 else [])
+            for f in os.listdir(d):
+                if f.startswith("a.") or f == "out":
+                    p_ = os.path.join(d, f)
+                    shutil.rmtree(p_) if os.path.isdir(p_) else os.remove(p_)
+            cmd = "create a.pna -r t %s --split=%d | extract" % (" ".join(opts), m)
+            r1 = cli.run_pna(["--quiet", "create", "a.pna", "-r", "t", "--split=%d" % m] + opts, cwd=d, timeout=120)
+            c.cov["evaluations"] += 1
+            if r1["rc"] != 0:
+                continue          # a size too small for an indivisible chunk is refused (C04)
+            first = "a.part1.pna" if os.path.exists(os.path.join(d, "a.part1.pna")) else "a.pna"
+            r2 = cli.run_pna(["--quiet", "extract", first, "--out-dir", "out", "--password", PW], cwd=d, timeout=120)
+            c.hist["split sweep (encrypted, small parts)"] = c.hist.get("split sweep (encrypted, small parts)", 0) + 1
+            if r2["rc"] != 0:
+                bad.append("%s: extract fails (rc %s): %s" % (cmd, r2["rc"], r2["err"][-160:].decode("utf-8", "replace")))
+                continue
+            got = snap(os.path.join(d, "out", "t"), "t")
+            for p_, (k, data, mode, mtime, xs) in src.items():
+                if k == "f" and (p_ not in got or got[p_][1] != data):
+                    bad.append("%s: %r is missing or differs after extraction" % (cmd, p_))
+                    break
+    for b in bad[:3]:
+        c.violations.append(("oracle", "C02 over part sizes: " + b, b, True))
+
+
 UNPRIV = ["setpriv", "--reuid=65534", "--regid=65534", "--clear-groups"]
 
 
@@ -504,5 +546,6 @@ def run(tier, seed, replay=None):
     histories(c, tier, seed)
     unprivileged_histories(c, random.Random(seed + 77), 6 if tier == "quick" else 60)
     link_root_histories(c, random.Random(seed + 78), 8 if tier == "quick" else 80)
+    split_sweep(c, random.Random(seed + 79), 60 if tier == "quick" else 270)
     return c.finish("proof", ["Coq 8.16.1 kernel and VM", "ExtrOcamlBasic extraction + modelrun/driver.ml", "harness dump",
                               "vlib/cli.py snapshots", "Model/Fs.v as a description of the file system calls"])
